@@ -1,7 +1,7 @@
 SPECIFICATION Spec
 CONSTANTS
   Tier = "quick"
-  ImplFixes = {}
+  ImplFixes = {"unionDefault", "getEnumCycle", "dupArgs", "argDefaults", "lateGen"}
 VIEW View
 INVARIANTS DesignInvariants Emit Emit2
 CHECK_DEADLOCK FALSE
